@@ -1,4 +1,5 @@
 // Async API ops, compiled for the astd and tokio flavours.
+#[allow(unused_imports)]
 use std::path::{Path, PathBuf};
 use std::time::Duration;
 
@@ -61,7 +62,8 @@ async fn close_writer(w: &mut cacache::Writer) -> std::io::Result<()> {
 }
 
 async fn a_write(op: &Value) -> Value {
-    let cache = s(op, "cache");
+    let cache_pb = pth(op, "cache");
+    let cache: &Path = &cache_pb;
     let key = opt_s(op, "key");
     let data = get_data(op);
     let entry = s(op, "entry");
@@ -229,7 +231,8 @@ async fn a_write(op: &Value) -> Value {
 }
 
 async fn a_reader(op: &Value) -> Value {
-    let cache = s(op, "cache");
+    let cache_pb = pth(op, "cache");
+    let cache: &Path = &cache_pb;
     let r = match opt_s(op, "key") {
         Some(k) => cacache::Reader::open(cache, k).await,
         None => cacache::Reader::open_hash(cache, parse_sri(op, "sri")).await,
@@ -300,8 +303,9 @@ async fn a_reader(op: &Value) -> Value {
 }
 
 async fn a_extract(op: &Value, name: &str) -> Value {
-    let cache = s(op, "cache");
-    let to = PathBuf::from(s(op, "to"));
+    let cache_pb = pth(op, "cache");
+    let cache: &Path = &cache_pb;
+    let to = pth(op, "to");
     let key = opt_s(op, "key");
     let sri = || parse_sri(op, "sri");
     match (name, key) {
@@ -318,9 +322,11 @@ async fn a_extract(op: &Value, name: &str) -> Value {
 }
 
 async fn a_link_to(op: &Value) -> Value {
-    let cache = s(op, "cache");
+    let cache_pb = pth(op, "cache");
+    let cache: &Path = &cache_pb;
     let key = opt_s(op, "key");
-    let target = s(op, "target");
+    let target_pb = pth(op, "target");
+    let target: &Path = &target_pb;
     if s(op, "entry") == "fn" {
         return res_sri(match key {
             Some(k) => cacache::link_to(cache, k, target).await,
@@ -362,7 +368,7 @@ async fn a_link_to(op: &Value) -> Value {
     }
     if let Some(d) = opt_s(op, "chdir_before_commit") {
         // the working directory changes between opening the linker and committing it
-        let _ = std::env::set_current_dir(d);
+        let _ = std::env::set_current_dir(pdec(d));
     }
     let mut v = res_sri(l.commit().await);
     v["got"] = bytes_json(&got);
@@ -370,7 +376,8 @@ async fn a_link_to(op: &Value) -> Value {
 }
 
 async fn dispatch(op: &Value) -> Value {
-    let cache = s(op, "cache");
+    let cache_pb = pth(op, "cache");
+    let cache: &Path = &cache_pb;
     match s(op, "op") {
         "write" => a_write(op).await,
         "read" => res_bytes(match opt_s(op, "key") {
